@@ -109,7 +109,7 @@ func (env *CEnv) eval(n *Node) cval {
 		i := env.term(n.Kids[1])
 		switch x := b.V.(type) {
 		case *SymSliceV:
-			return cval{V: Select(x.Arr, i)}
+			return cval{V: Select(env.ex.symArr(env.st, x), i)}
 		case *Term:
 			if strings.HasPrefix(x.S, "(Array") {
 				return cval{V: Select(x, i)}
@@ -722,6 +722,7 @@ var specSigs = map[string]string{
 	"hash_ok": SBool, "sha512": SStr, "hash_of": SStr, "localize": SStr, "totp_ok": SBool,
 	"b64enc!std": SStr, "b64enc!url": SStr, "b64dec!std": SStr, "b64dec!url": SStr,
 	"time_format": SStr, "time_parse": SInt, "time_parse_ok": SBool, "fresh_error": SBool,
+	"str_split": SArr(SInt, SStr), "str_split_len": SInt, "str_join": SStr, "itoa": SStr, "atoi": SInt,
 }
 
 func (env *CEnv) macro(name string) *SpecMacro {
